@@ -22,7 +22,7 @@ CFG = {'assumptions': ['f64 inputs cross the boundary as bit patterns and are de
                 'GeoProofs/Lemmas/C12Line.lean', 'GeoProofs/Lemmas/C12Fold.lean',
                 'GeoProofs/Lemmas/C12Closest.lean', 'GeoProofs/Lemmas/C12Interior.lean',
                 'GeoProofs/Lemmas/C12QCross.lean', 'GeoProofs/Lemmas/C12QScan.lean',
-                'GeoProofs/Lemmas/C12QSimple.lean'],
+                'GeoProofs/Lemmas/C12QSimple.lean', 'GeoProofs/Lemmas/C12QFold.lean'],
  'rule': 'half closest_point, half interior_point; geometries: shapes::gen_valid (all 10 types, nested '
          'collections), dedicated streams of polyomino polygons whose hole touches the shell, thin slivers / '
          'C-shapes / combs whose centroid is outside, needles down to 1 ulp thin, rings with repeated vertices, mixed-dimension collections, empty and zero-length inputs, '
